@@ -52,7 +52,9 @@ func (node *tagForNode) Execute(ctx *ExecutionContext, writer TemplateWriter) (f
 
 		// Update loop infos and public context
 		forCtx.Private[node.key] = key
-		if value != nil {
+		if value != nil && node.value != "" {
+			// (without a second loop variable there is no name to bind the value to;
+			// an entry named "" would make an include inside the loop fail)
 			forCtx.Private[node.value] = value
 		}
 		loopInfo.Counter = idx + 1
